@@ -204,10 +204,11 @@ func kvFactory(t tfail, backends []int) (func(id uint64) (chord.KVProvider, func
 func runDataChurn(t tfail, rec *ev.Recorder, p dataPlan) (r *simRing, res *dataResult, ok bool, cleanup func()) {
 	newKV, rmDirs := kvFactory(t, p.Backends)
 	r = &simRing{net: ringsim.New(ringsim.Config{
-		Seed:      p.Churn.Seed,
-		MaxDelay:  time.Duration(p.Churn.MaxDelay) * time.Microsecond,
-		DelayProb: float64(p.Churn.DelayPct) / 100,
-		NewKV:     newKV,
+		Seed:       p.Churn.Seed,
+		MaxDelay:   time.Duration(p.Churn.MaxDelay) * time.Microsecond,
+		DelayProb:  float64(p.Churn.DelayPct) / 100,
+		NewKV:      newKV,
+		SlowMethod: "Finish*", SlowArg: "release", SlowDelay: time.Duration(p.Churn.SlowReleaseMs) * time.Millisecond,
 	}), members: map[uint64]*ringsim.Member{}}
 	cleanup = func() { r.net.Close(); rmDirs() }
 	res = &dataResult{models: map[string]*keyModel{}}
@@ -298,6 +299,30 @@ func TestC03(t *testing.T) {
 		} else {
 			rec.Fail(t, "leave-through-stale-successor-misplaces-keys", map[string]any{"schedule": "ring {1000,2000,3000}; 2000 starts to leave (successor 3000); 2500 joins via 3000 before RequestToLeave is delivered; 3000 grants the leave", "holder": holder, "owner": owner, "problem": p},
 				"acknowledged key lost after a leave that raced a join at the successor: %s", p)
+		}
+	}
+	// scenario tier: a leave that exhausts its whole retry budget (successor membership-locked
+	// for ~2 s of back-off) - too slow to be hit by the generated histories at their size
+	if p, st := leaveGivesUpWhileSuccessorBusy(8 * time.Second); p != "" {
+		if len(p) > 13 && p[:13] == "precondition:" {
+			rec.Inconclusive("scenario-precondition")
+			t.Logf("leave-gives-up scenario: %s", p)
+		} else {
+			rec.Fail(t, "data-lost-after-leave-gave-up", map[string]any{"schedule": "ring {1<<44, 2<<44, 3<<44}; 5<<43 joins via 3<<44 and its advisory to 2<<44 is held (3<<44 stays locked); 2<<44 tries to leave and runs out of attempts", "leaver_state": st.String(), "problem": p},
+				"acknowledged data lost / node not serving after a leave attempt that ran out of retries: %s", p)
+		}
+	} else {
+		rec.Case(true, "scenario:leave-gives-up", func() any {
+			return map[string]any{"scenario": "leave exhausts its retries while the successor is membership-locked", "leaver_state_afterwards": st.String()}
+		}, "scenario:leave-gave-up")
+	}
+	if p, holder, owner := joinAfterPredecessorLeft(); p != "" {
+		if len(p) > 13 && p[:13] == "precondition:" {
+			rec.Inconclusive("regression-schedule-precondition")
+			t.Logf("join-after-predecessor-left regression: %s", p)
+		} else {
+			rec.Fail(t, "join-after-predecessor-left-leaves-keys-behind", map[string]any{"schedule": "ring {1<<44, 2<<44, 3<<44}; 2<<44 leaves gracefully; before 3<<44 has replaced its predecessor pointer, 5<<43 joins via 3<<44", "holder": holder, "owner": owner, "problem": p},
+				"acknowledged key lost after a join that followed the leave of the successor's predecessor: %s", p)
 		}
 	}
 	backs := ev.Pick([]int{0, 0, 0, 0, 0, 1, 2}, []int{0, 0, 1, 2})
